@@ -19,10 +19,19 @@ type State struct {
 	guard *Term
 	heap  map[string]*Term
 	cells map[*Cell]*Value
+	// snaps: ghost snapshots of the state right after the most recent call of a tracked callee
+	// (after(F, expr) in contracts); shared, never mutated
+	snaps map[string]*State
 }
 
 func (s *State) clone() *State {
 	n := &State{guard: s.guard, heap: make(map[string]*Term, len(s.heap)), cells: make(map[*Cell]*Value, len(s.cells))}
+	if len(s.snaps) > 0 {
+		n.snaps = make(map[string]*State, len(s.snaps))
+		for k, v := range s.snaps {
+			n.snaps[k] = v
+		}
+	}
 	for k, v := range s.heap {
 		n.heap[k] = v
 	}
@@ -460,6 +469,21 @@ func (x *Exec) mergeStates(sts []*State) *State {
 			out.heap[k] = acc // untouched on every incoming path: keep the term (and its structure)
 		} else {
 			out.heap[k] = x.name("h_"+shortKey(k), acc)
+		}
+	}
+	// a snapshot survives a merge only if every incoming path took the same one
+	for k, v := range sts[0].snaps {
+		same := true
+		for _, s := range sts[1:] {
+			if s.snaps[k] != v {
+				same = false
+			}
+		}
+		if same {
+			if out.snaps == nil {
+				out.snaps = map[string]*State{}
+			}
+			out.snaps[k] = v
 		}
 	}
 	cells := map[*Cell]bool{}
